@@ -119,6 +119,35 @@ CHECKS = {
         note='Bounded text length (4-5 over {a,b,blank,NL}, 7-10 over {a,NL}); regex family only (atoms, quantifiers, '
              'anchors, -ignore-case; no groups); characters beyond \\n that splitlines breaks on belong to C14.',
         design='5/C05'),
+    'C12': dict(
+        engine='spec/Paths.tla, spec/PathsExport.tla',
+        technique='TLC model checking of a parse / validate / execute machine over small path programs (cd, chains of '
+                  'def path, one use per argument role) + replay of every enumerated program (and random deeper chains '
+                  'from -simulate) through the real CLI in a world where the same relative path exists under every root; '
+                  'known finding judged by the specification with a named deviation',
+        text='TLC explores 13 argument roles x every relativity option / default / -rel SYMBOL / leading path-symbol '
+             'reference x FILE-NAME shapes (nested, string-symbol references, absolute) x chains up to MaxDepth x a '
+             'context cd, and checks ResolvesUnderRoot, RelCdAtUse, WriteRolesNeverReachHome, acceptance sets and that '
+             'rejection happens before execution; every program is executed with --keep and snapshots of all roots, the '
+             'path a probe receives and the verdict are compared with the prediction.',
+        note='Bounded chain depth (2 quick / 3 thorough, 6 in simulation); for read-only arguments only the resolution of '
+             'what is accepted is claimed; D4 (absolute FILE-NAME escapes its root) is an open known finding judged by '
+             'Paths.tla with Deviations={"AbsoluteSuffixWins"}.',
+        design='5/C12'),
+    'C16': dict(
+        engine='spec/Suite.tla, spec/SuiteExport.tla',
+        technique='TLC model checking of the suite reader / enumerator / runner / reporters as a step machine against a '
+                  'declarative reading of the same hierarchy + replay of every enumerated hierarchy x verdict assignment '
+                  'with both reporters through the real CLI',
+        text='TLC explores every canonical suite hierarchy up to a bound (plain, glob, directory, repeated, cyclic, missing '
+             'references, syntax errors) and every assignment of 14 case kinds, and checks InvalidIffDeclared, '
+             'InvalidRunsNothing, EveryCaseOnce, SubSuitesFirst, ProgressVerdict and ReportersAgree; each input is built '
+             'as a real file tree and run with the progress and the JUnit reporter; exit code, which cases executed in '
+             'which order (marker file), progress lines and the JUnit document are compared.',
+        note='Bounded hierarchy size (2 sub-suites / 2 lines quick; larger + 3000 random hierarchies thorough); unreadable '
+             'case files need unprivileged workers; D6 was found and repaired (fix: 6c0ccbc), the old behaviour is kept '
+             'as a named deviation that TLC must refute.',
+        design='5/C16'),
 }
 
 NOT_YET = 'check not built yet (planned in DESIGN.md section 5); no claim is made'
